@@ -21,7 +21,7 @@ from .replay_clang import ReplayUnsupported, compile_and_run, values_close
 from .symexec import And, IllTyped, Not, Or, Unsupported, FALSE, TRUE
 from .translate import TranslationRaised, scratch_root, translate
 
-REPLAY_ROOT = Path(__file__).resolve().parents[2] / "replays"
+from ..common import REPLAYS as REPLAY_ROOT  # noqa: E402
 
 
 def model_value(model, v):
@@ -88,6 +88,11 @@ def predict_ref(enc: Encoded, model):
     return ("rows", rows)
 
 
+# programs tagged 'exact' (a literal is the whole column: no arithmetic, hence no rounding to tolerate) are replayed with exact
+# comparison of the printed %.17g doubles; set per program in Analyzer.analyse (one program at a time per worker process)
+EXACT = False
+
+
 def rows_match(cpp_rows, ref_rows, treename):
     mine = [cols for t, cols in cpp_rows if t == treename]
     if len(mine) != len(ref_rows):
@@ -97,7 +102,7 @@ def rows_match(cpp_rows, ref_rows, treename):
             if set(a.keys()) != set(b.keys()):
                 return False
         for k in b:
-            if not values_close(a[k], b[k]):
+            if not (values_close(a[k], b[k], 0.0, 0.0) if EXACT else values_close(a[k], b[k])):
                 return False
     return True
 
@@ -237,6 +242,8 @@ class Analyzer:
         return d
 
     def analyse(self, prog: Program, patches=None) -> ProgramResult:
+        global EXACT
+        EXACT = "exact" in prog.tags
         patches = self.patches if patches is None else tuple(patches)
         r = ProgramResult(prog)
         t0 = time.time()
@@ -249,11 +256,32 @@ class Analyzer:
         r.seconds = time.time() - t0
         return r
 
+    def _wellformedness_verdict(self, prog, pkg, r, status, detail):
+        """The encoder's front end / C++-subset parser / typer could not give the package a meaning.  Before that is
+        reported as 'package not well-formed' the REAL files are handed to clang (-fsyntax-only, against the model header
+        generated from the very declarations the query used).  clang rejects -> the status stands (replay = the clang log);
+        clang accepts -> the encoder is the one that is wrong about this text: inconclusive, never a violation.
+        A package clang cannot be asked about (replay unsupported) keeps the encoder's verdict."""
+        wd = self.scratch("wf")
+        try:
+            ok, log = syntax_check(pkg, prog.datamodel(), {}, wd)
+        except ReplayUnsupported:
+            ok, log = None, ""
+        except Exception as e:  # noqa: BLE001
+            ok, log = None, f"syntax check failed to run: {type(e).__name__}: {e}"
+        shutil.rmtree(wd, ignore_errors=True)
+        if ok:
+            r.status, r.detail = "unsupported", f"encoder says {status} ({detail}) but clang accepts the package"
+            r.inconclusive.append(("encoder", r.detail))
+            return
+        r.status = status
+        r.detail = detail + ((" || clang: " + " ".join(log.split())[:300]) if log else " || (clang replay not available for this package)")
+
     def _analyse(self, prog, r, patches):
         if "selfcomp" in self.want:
             return self._analyse_selfcomp(prog, r, patches)
         try:
-            pkg = translate(prog.query, prog.backend)
+            pkg = translate(prog.query, prog.backend, fold_neg="fold_neg" in prog.tags)
         except TranslationRaised as e:
             r.status = "raised"
             r.detail = str(e)
@@ -262,13 +290,13 @@ class Analyzer:
         try:
             enc = Encoded(prog, pkg, self.N, patches=patches, member_pre=self.member_pre)
         except (frontend.FrontEndError,) as e:
-            r.status, r.detail = "frontend", str(e)
+            self._wellformedness_verdict(prog, pkg, r, "frontend", str(e))
             return
         except cxx.CxxSyntaxError as e:
-            r.status, r.detail = "illformed", str(e)
+            self._wellformedness_verdict(prog, pkg, r, "illformed", str(e))
             return
         except IllTyped as e:
-            r.status, r.detail = "illtyped", str(e)
+            self._wellformedness_verdict(prog, pkg, r, "illtyped", str(e))
             return
         except Unsupported as e:
             r.status, r.detail = "unsupported", str(e)
@@ -349,7 +377,7 @@ class Analyzer:
         from .model import Event
         from .equiv import row_eq
         try:
-            pkg = translate(prog.query, prog.backend)
+            pkg = translate(prog.query, prog.backend, fold_neg="fold_neg" in prog.tags)
         except TranslationRaised as e:
             r.status, r.detail = "raised", str(e)
             return
@@ -360,10 +388,10 @@ class Analyzer:
             A = Encoded(prog, pkg, self.N, patches=patches, tag="A", event=ev, skip_ref=True)
             B = Encoded(prog, pkg, self.N, patches=patches, tag="B", event=ev, skip_ref=True)
         except (frontend.FrontEndError, cxx.CxxSyntaxError) as e:
-            r.status, r.detail = "illformed", str(e)
+            self._wellformedness_verdict(prog, pkg, r, "illformed", str(e))
             return
         except IllTyped as e:
-            r.status, r.detail = "illtyped", str(e)
+            self._wellformedness_verdict(prog, pkg, r, "illtyped", str(e))
             return
         except Unsupported as e:
             r.status, r.detail = "unsupported", str(e)
@@ -539,7 +567,11 @@ class Analyzer:
                 if g[1] != w[1]:
                     ok, why = False, f"column {g[0]}: depth {g[1]} != {w[1]}"
                     break
-                if g[2] not in KIND_OK.get(w[2], (w[2],)):
+                if isinstance(w[2], str) and w[2].startswith("tree:"):
+                    if g[2] != w[2][5:]:
+                        ok, why = False, f"column {g[0]}: element type {g[2]} but the method's declared tree_type is {w[2][5:]}"
+                        break
+                elif g[2] not in KIND_OK.get(w[2], (w[2],)):
                     ok, why = False, f"column {g[0]}: element type {g[2]} but the expression is {w[2]}"
                     break
             members = [g[3] for g in got]
@@ -578,6 +610,33 @@ class Analyzer:
         if rp.get("compile_failed"):
             r.inconclusive.append((v.name, rp["text"]))
             v.status = "inconclusive"
+            shutil.rmtree(wd, ignore_errors=True)
+            return
+        if not rp["encoder_ok"] and enc.ctx.rf_terms and "fault prediction" not in rp["encoder_text"] and getattr(v, "tries", 0) < 3 \
+                and getattr(v, "query", None) is not None:
+            # binary32 rounding is an uninterpreted function constrained by relative-error axioms: a model may round a float
+            # sum differently from the machine (visible after cancellation).  That is the stated abstraction, not an encoder
+            # defect: the model is spurious - block it and ask again.
+            shutil.rmtree(wd, ignore_errors=True)
+            blk = block_model(enc, v.model)
+            if blk is not None:
+                prem, neg = v.query
+                prem = prem + [blk]
+                v2 = discharge(v.name, prem, neg, self.timeout_ms)
+                v2.tries = getattr(v, "tries", 0) + 1
+                v2.query = (prem, neg)
+                r.spurious.append((v.name, "float32 abstraction: " + rp["encoder_text"][:300]))
+                if v2.status == "cex":
+                    v.model, v.tries, v.query = v2.model, v2.tries, v2.query
+                    return self._confirm(prog, enc, v, r, patches)
+                v.status = "inconclusive"
+                v.detail = "only models that differ from machine float32 rounding (blocked): " + rp["encoder_text"][:300]
+                r.inconclusive.append((v.name, v.detail))
+                return
+        if not rp["encoder_ok"] and enc.ctx.rf_terms and "fault prediction" not in rp["encoder_text"]:
+            v.status = "inconclusive"
+            v.detail = "float32 abstraction: solver models round differently from the machine: " + rp["encoder_text"][:300]
+            r.inconclusive.append((v.name, v.detail))
             shutil.rmtree(wd, ignore_errors=True)
             return
         if not rp["encoder_ok"]:
